@@ -709,8 +709,9 @@ def op_c07(case):
 _alone: dict = {}
 
 
-def _body_rows(src: str, entry: str = "string"):
-    """rows of the statements of parse_string(src).body (depth-normalised), or the exception; entry="file": through parse_file"""
+def _body_rows(src: str, entry: str = "string", shift: int = 0):
+    """rows of the statements of parse_string(src).body (depth-normalised), or the exception; entry="file": through parse_file;
+    shift: the caller line-shifts the tree it was given, in place, as any client of the ast module would"""
     try:
         arm()
         if entry == "file":
@@ -726,6 +727,9 @@ def _body_rows(src: str, entry: str = "string"):
         return {"hang": True}
     except BaseException as e:  # noqa: BLE001
         return {"exc": exc_record(e)}
+    if shift:
+        for st in tree.body:
+            ast.increment_lineno(st, shift)
     rows = []
     for i, st in enumerate(tree.body):
         for r in flatten(st):
@@ -754,13 +758,13 @@ def op_c14(case):
     whole = _body_rows("".join(parts), entry)
     exp, dl, alone_exc = [], 0, None
     for p in parts:
-        if (p, entry) not in _alone:
-            _alone[(p, entry)] = _body_rows(p, entry)
-        a = _alone[(p, entry)]
+        # every part is parsed anew and the returned tree shifted in place: a parser that hands out the same tree twice
+        # (or keeps it) shows here as soon as a part is used a second time
+        a = _body_rows(p, entry, dl)
         if "rows" not in a:
             alone_exc = {"part": p, "outcome": a}
             break
-        exp += _shift(a["rows"], dl)
+        exp += a["rows"]
         dl += p.count("\n")
     r = {"alone_ok": alone_exc is None, "alone": alone_exc, "whole_ok": "rows" in whole, "whole": None if "rows" in whole else whole}
     if r["alone_ok"] and r["whole_ok"]:
@@ -1003,7 +1007,17 @@ def op_c13_history(case):
             got = _call_outcome(pool[c - 1], keep)
             steps.append([c, got])
             if len(keep) > n:
-                at_return.append(_h(ast.dump(keep[-1], include_attributes=True)))
+                # the returned tree belongs to the caller: it edits it (line shift, an extra statement) - no later call may
+                # see that edit, and no later call may change the tree any further
+                tree = keep[-1]
+                try:
+                    ast.increment_lineno(tree, 7)
+                    body = getattr(tree, "body", None)
+                    if isinstance(body, list):
+                        body.append(ast.Pass(lineno=1, col_offset=0, end_lineno=1, end_col_offset=4))
+                except BaseException:  # noqa: BLE001
+                    pass
+                at_return.append(_h(ast.dump(tree, include_attributes=True)))
         at_end = [_h(ast.dump(t, include_attributes=True)) for t in keep]
         out.append({"steps": steps, "kept": [[a, b] for a, b in zip(at_return, at_end)]})
     return {"results": out}
